@@ -9,7 +9,7 @@ CFG = dict(
               "filterAttr_rejects_non_point", "crop_wf", "removeNullFaces_wf",
               "splitOnMaterials_wf", "weld_wf", "repeatMesh_wf", "clearAttrs_wf", "setData_wf", "step_wf", "ops_closed", "ops_closed_transforms", "march_blocks_wf", "bowyerWatson_wf", "bowyerWatson_entry_wf", "constrainedBowyerWatson_wf",
               # round 2 (Props/C02More.lean, models Model/MeshMore.lean)
-              "scaleAlongNormal_wf", "scale2D_wf", "normalize2D_wf", "copyAttr_wf", "copyAttr_missing_wf"],
+              "scaleAlongNormal_wf", "scale2D_wf", "normalize2D_wf", "copyAttr_wf", "copyAttr_missing_wf", "scaleAlongNormalNode_total", "cropNode_wf"],
     # one-line instances / records: kernel-checked with the module, not counted as property obligations
     helper_theorems=["translate_wf", "scaleAbout_wf", "scaleMesh_wf", "rotate_wf", "applyTRS_wf", "center_wf", "normalize_wf", "smoothNormals_wf", "flatNormals_wf", "laplacian_wf", "filterAttrOld_breaks_triangles"],
     streams=[dict(name="c02", n=dict(quick=400, thorough=12000))],
@@ -50,7 +50,7 @@ CFG = dict(
         text="Lean 4 theorems for every payload type and all parameter values. Operations: ops_closed / ops_closed_transforms (any finite sequence of non-rejected mesh "
              "operations keeps a well-formed mesh well-formed) from per-operation lemmas WF m -> WF (op m) or rejection: unweld, remove unreferenced, to point cloud, flip, append, "
              "filters (point clouds only, else rejected), crop, remove null faces, split on materials (every part), weld by any key function, repeat, set material(s), modify/map, and "
-             "the ten transforms (translate, scale-about, mesh scale, rotate, apply-TRS, centre, normalise, smooth/flat normals, Laplacian). ClearAttributeData and the raw "
+             "the ten transforms (translate, scale-about, mesh scale, rotate, apply-TRS, centre, normalise, smooth/flat normals, Laplacian); round 2: scale along normal, 2-D scale / normalise, CopyFloatNAttribute under its guard (Props/C02More). ClearAttributeData and the raw "
              "setters (SetIndices, SetFloatNAttribute incl. delete-on-empty, CopyFloatNAttribute, SetFloatNData) take unchecked caller data: they preserve WF exactly under the stated "
              "length/range guards (theorems setIndices_wf, setAttr_wf, setAttr_delete_wf, setData_wf, clearAttrs_wf, and guarded Step constructors); with other data they are builders "
              "whose result the caller completes (outside the theorem, observed only). Generators: every index in range and count divisible by 3 for ALL parameters of the Lean index "
@@ -58,7 +58,7 @@ CFG = dict(
              "list of winding flags; also Circle.Extrude, CircleAlongSpline and the node wrappers; rejection branch stated: extrusions_total), screw, and an abstract marching-cubes block allocation + append fold. Tie: exact (vertex count, index "
              "list) comparison of every modelled generator with the Go constructor on sweeps from parameter 0 upward (exhaustive <= 24, non-square samples up to 512; invalid "
              "parameters must be rejected on both sides); op sequences compared with the model (shape); the WF predicate evaluated on EVERY mesh the implementation returns, "
-             "including un-modelled operations (slice by plane, colour LUT/space, implicit-weld normals, axis Laplacian, scale along normal, 2-D scale/normalise) and un-modelled "
+             "including un-modelled operations (slice by plane, colour LUT/space, implicit-weld normals, axis Laplacian) and un-modelled "
              "generators / wrappers (node Process wrappers, simplify, pipeline, animation, colmap/opensfm constructors). Abstract-model theorems tied by oracles only: marching block allocation, Bowyer-Watson (bowyerWatson_wf from the C20 model: any selection and order of the final triangulation's triangles; reflects the final filter + n vertices, not the insertion algorithm), constrained Bowyer-Watson (clipping events).",
         note="Trusted: Lean kernel + 3 axioms; harness. Not theorems (WF oracle on implementation output only): the un-modelled operations and generators listed above; bowyerWatson_wf is about the C20 model Model/Delaunay.lean (tied to Go by C20's correspondence); the "
              "marching theorems are about an abstract LookupOrAdd allocation tied to canvas.go by the oracle; generator theorems are about the Lean generators, linked to Go by the "
